@@ -22,7 +22,7 @@ func init() {
 		Technique: "Go race detector over concurrently built-and-run applications + outcome-equality monitor (concurrent vs solo, permuted sequential order, rebuild)",
 		Rule: "a case is a round over a pool of 120 (program, command line) pairs (generator of C01 incl. spec-level -- and env-backed options; environment fixed before any goroutine starts): " +
 			"(a) every pair is built and run solo and its outcome (acceptance + every bound value) recorded; (c) built and run a second time: same outcome; " +
-			"(b) the pool is run sequentially in random permutations in the same process: every outcome equal to solo; (a') 16 goroutines each build and run randomly drawn pairs concurrently, under the race detector: " +
+			"(b) the pool is run sequentially in random permutations in the same process: every outcome equal to solo; (d) 2-4 applications are all declared first and then run in a random order: every outcome equal to solo; (a') 16 goroutines each build and run randomly drawn pairs concurrently, under the race detector: " +
 			"every outcome equal to solo and no data race reported (race reports are collected from the detector's log, deduplicated by the top frames). The evidence reports how many runs overlapped (in-flight counter sampled at Run entry). " +
 			"non-trivial = a concurrent run that overlapped with at least one other; distinct by (round, goroutine, draw).",
 		Assumptions: []string{
@@ -87,6 +87,27 @@ func runC20(c *core.Ctx) {
 				return
 			}
 			c.Inc("sequential_equal")
+		}
+	}
+	// (d) interleaved construction: several applications are declared first, then run in another order
+	for k := 0; k < 40; k++ {
+		n := 2 + c.R.Intn(3)
+		var built []*drive.Built
+		var prs []c20Pair
+		for i := 0; i < n; i++ {
+			pr := pool[c.R.Intn(len(pool))]
+			app := drive.Single(pr.p)
+			app.Shared = true
+			built = append(built, drive.Build(app))
+			prs = append(prs, pr)
+		}
+		for _, i := range c.R.Perm(n) {
+			c.Eval()
+			if got := drive.OutcomeKey(prs[i].p, built[i].Run(prs[i].argv)); got != prs[i].solo {
+				c.Violation("an application declared alongside others behaves differently from the same application alone", map[string]interface{}{"spec": prs[i].p.Spec, "decl": DeclStr(prs[i].p), "argv": prs[i].argv, "solo": prs[i].solo, "interleaved": got}, nil)
+				return
+			}
+			c.Inc("interleaved_equal")
 		}
 	}
 	// (a') concurrent
